@@ -24,6 +24,7 @@ UNITS = {
     'getkey': {'rlimit': 50, 'timeout': 120},
     'stream': {'rlimit': 50, 'timeout': 240},
     'reader': {'rlimit': 50, 'timeout': 120},
+    'decode': {'rlimit': 100, 'timeout': 240},
     'registry': {'rlimit': 50, 'timeout': 120},
     'ops': {'rlimit': 50, 'timeout': 240},
     'heap': {'rlimit': 50, 'timeout': 120},
@@ -32,6 +33,20 @@ UNITS = {
 }
 
 PROPS = {
+    'C02': {
+        'units': ['reader', 'decode'],
+        'kani': [],
+        'level_text': 'Proof: FstRef::get / contains_key (real bodies) and the Fst / Map / Set wrappers are verified to return exactly '
+                      'lookup(root, key) over the decoded graph for every probe of every length (absent keys, prefixes, extensions, '
+                      'divergence at any byte, the empty key are instances). The decoder - State::new, Node::new, all accessors of the three '
+                      'node forms, find_input by index table and by scan - is verified on its real bodies against dec_view, a spec function '
+                      'of the file bytes written from the format description (any version).',
+        'level_note': 'The reader unit states the Node accessor contracts over an abstract decode function; the decode unit proves them '
+                      'over dec_view under `plausible` (the address holds a node that decodes inside the file) - the link between the two '
+                      'phrasings is argued, not yet a token-identical CONTRACT-OF link. Relation of the graph to the inserted map: C01.',
+        'explanation': '',
+        'assumptions': [],
+    },
     'C05': {
         'units': ['ops', 'heap', 'optrace', 'difftrace'],
         'kani': [],
@@ -153,9 +168,9 @@ PROPS = {
         'assumptions': [],
     },
     'C10': {
-        'units': ['open'],
+        'units': ['open', 'decode'],
         'kani': [],
-        'own': {'open': r'Fst::(new|verify|as_ref)|u64_to_usize|From'},
+        'own': {'open': r'Fst::(new|verify|as_ref)|u64_to_usize|From'},  # decode: every obligation (the decoder is version-parametric)
         'level_text': 'Proof: Fst::new is verified generically over D: AsRef<[u8]> against per-version footer offsets written from '
                       'the format description: versions 1-3 with at least 32/36 bytes open with the footer fields at the '
                       'per-version offsets, shorter inputs give Format{size}, unsupported versions Version{expected:3, got}; '
